@@ -106,12 +106,16 @@ VARIABLES
   chDU, chUD,\* control messages in flight D->U / U->D (FIFO)
   fc,        \* file connection [st, tk, off, fl]
   stall,     \* scripted U has stopped sending (keeps the connection open)
-  faults     \* faults / scripted deviations used so far
+  faults,    \* faults / scripted deviations used so far
+  heldUF     \* PeerUploadFailed messages held back in the network (delivered later, out of order)
 
 vars == <<mode, size, local, cnt, sizeD, stD, rsnD, remQ, pcD, expTk, recvD, needD, stU, rsnU, pcU, tkt, offU,
-          sentU, chDU, chUD, fc, stall, faults>>
+          sentU, chDU, chUD, fc, stall, faults, heldUF>>
 
 NoFc == [st |-> "none", tk |-> -1, off |-> -1, fl |-> <<>>]
+
+\* the file connection as the uploader's peer sees it: the downloader has closed it or the network broke it
+PeerGone == fc.st \in {"closedD", "eof", "reset"}
 
 LocalLen == BLen(local)
 IsPrefix(q) == q = <<>> \/ (Len(q) = 1 /\ q[1].a = 1 /\ q[1].b <= size)
@@ -132,7 +136,7 @@ Init ==
         /\ sizeD = IF k = 0 /\ c = 0 THEN -1 ELSE size
   /\ rsnD = FALSE /\ remQ = FALSE /\ pcD = "idle" /\ expTk = -1 /\ recvD = 0 /\ needD = 0
   /\ stU = "NONE" /\ rsnU = FALSE /\ pcU = "idle" /\ tkt = 0 /\ offU = 0 /\ sentU = 0
-  /\ chDU = <<>> /\ chUD = <<>> /\ fc = NoFc /\ stall = FALSE /\ faults = 0
+  /\ chDU = <<>> /\ chUD = <<>> /\ fc = NoFc /\ stall = FALSE /\ faults = 0 /\ heldUF = 0
 
 ----------------------------------------------------------------------------
 \* Downloader
@@ -144,7 +148,7 @@ Init ==
 \* Where it does not hold (LateNotice) the PeerTransferQueue reaches an upload that is still UPLOADING,
 \* is ignored (1217-1229), the upload then ends COMPLETE without PeerUploadFailed, and the download
 \* stays marked remotely queued for ever.
-UNoticedEnd == ~(pcU \in {"send", "waiteof"} /\ fc.st # "open" /\ size - offU - sentU <= 0)
+UNoticedEnd == ~(pcU \in {"send", "waiteof"} /\ PeerGone /\ size - offU - sentU <= 0)
 
 DQueueRemotelyCore ==
   /\ pcD = "idle" /\ ~remQ
@@ -152,7 +156,7 @@ DQueueRemotelyCore ==
   /\ chDU' = Append(chDU, [t |-> "queue"])
   /\ remQ' = TRUE
   /\ UNCHANGED <<mode, size, local, cnt, sizeD, stD, rsnD, pcD, expTk, recvD, needD, stU, rsnU, pcU, tkt, offU,
-                 sentU, chUD, fc, stall, faults>>
+                 sentU, chUD, fc, stall, faults, heldUF>>
 
 DQueueRemotely == (UNoticedEnd \/ LateNotice) /\ DQueueRemotelyCore
 
@@ -173,7 +177,7 @@ DRecvRequest ==
             THEN /\ chDU' = Append(chDU, [t |-> "reply", k |-> m.k, ok |-> FALSE])
                  /\ UNCHANGED <<stD, sizeD, expTk, pcD>>
             ELSE UNCHANGED <<stD, sizeD, expTk, pcD, chDU>>
-  /\ UNCHANGED <<mode, size, local, cnt, rsnD, remQ, recvD, needD, stU, rsnU, pcU, tkt, offU, sentU, fc, stall, faults>>
+  /\ UNCHANGED <<mode, size, local, cnt, rsnD, remQ, recvD, needD, stU, rsnU, pcU, tkt, offU, sentU, fc, stall, faults, heldUF>>
 
 \* 1417-1418: FAILED -> queue(remotely=True); the request is then handled as for QUEUED.
 DRequeueOnRequest ==
@@ -181,7 +185,7 @@ DRequeueOnRequest ==
   /\ stD = "FAILED" /\ pcD = "idle"
   /\ stD' = "QUEUED" /\ rsnD' = FALSE /\ remQ' = TRUE
   /\ UNCHANGED <<mode, size, local, cnt, sizeD, pcD, expTk, recvD, needD, stU, rsnU, pcU, tkt, offU, sentU, chDU,
-                 chUD, fc, stall, faults>>
+                 chUD, fc, stall, faults, heldUF>>
 
 \* 822-824: no file connection within 60 s -> QUEUED (queue() clears the remote mark).
 \* Fires only when the connection can no longer come.
@@ -194,7 +198,7 @@ DFileConnTimeout ==
   /\ pcD = "waitfc" /\ ~FileConnStillPossible
   /\ stD' = "QUEUED" /\ remQ' = FALSE /\ pcD' = "idle"
   /\ UNCHANGED <<mode, size, local, cnt, sizeD, rsnD, expTk, recvD, needD, stU, rsnU, pcU, tkt, offU, sentU, chDU,
-                 chUD, fc, stall, faults>>
+                 chUD, fc, stall, faults, heldUF>>
 
 \* 1239-1272 + 826-846: the ticket arrives on a file connection; D computes the offset = size of
 \* the local file, sets its counter and writes the offset.  A scripted D may send any offset.
@@ -208,7 +212,7 @@ DSendOffset(o) ==
        THEN fc' = [fc EXCEPT !.tk = -1] /\ pcD' = "offerr"
        ELSE fc' = [fc EXCEPT !.tk = -1, !.off = IF fc.st = "open" THEN o ELSE -1] /\ pcD' = "starting"
   /\ UNCHANGED <<mode, size, local, sizeD, stD, rsnD, remQ, expTk, recvD, needD, stU, rsnU, pcU, tkt, offU, sentU,
-                 chDU, chUD, stall, faults>>
+                 chDU, chUD, stall, faults, heldUF>>
 
 \* 834-840: ConnectionWriteError while writing the offset
 DOffsetErr ==
@@ -216,7 +220,7 @@ DOffsetErr ==
   /\ IF OffsetErrFix THEN stD' = "QUEUED" /\ remQ' = FALSE /\ pcD' = "idle"
                      ELSE pcD' = "stuck" /\ UNCHANGED <<stD, remQ>>
   /\ UNCHANGED <<mode, size, local, cnt, sizeD, rsnD, expTk, recvD, needD, stU, rsnU, pcU, tkt, offU, sentU, chDU,
-                 chUD, fc, stall, faults>>
+                 chUD, fc, stall, faults, heldUF>>
 
 \* 1095-1112 + state.py start_transferring (reset_queue_vars): DOWNLOADING.
 \* The number of bytes to receive is filesize - offset; with nothing remaining the repaired
@@ -226,7 +230,7 @@ DStartDownload ==
   /\ stD' = "DOWNLOADING" /\ remQ' = FALSE /\ recvD' = 0 /\ needD' = sizeD - cnt
   /\ pcD' = IF ZeroFix /\ sizeD - cnt <= 0 THEN "verdict" ELSE "recv"
   /\ UNCHANGED <<mode, size, local, cnt, sizeD, rsnD, expTk, stU, rsnU, pcU, tkt, offU, sentU, chDU, chUD, fc,
-                 stall, faults>>
+                 stall, faults, heldUF>>
 
 \* connection.py 699-728 + 1114-1120: read up to Chunk bytes, append them to the file, count them.
 DRecv(n) ==
@@ -236,21 +240,21 @@ DRecv(n) ==
   /\ cnt' = cnt + n /\ recvD' = recvD + n
   /\ pcD' = IF recvD + n >= needD THEN "verdict" ELSE "recv"
   /\ UNCHANGED <<mode, size, sizeD, stD, rsnD, remQ, expTk, needD, stU, rsnU, pcU, tkt, offU, sentU, chDU, chUD,
-                 stall, faults>>
+                 stall, faults, heldUF>>
 
 \* receive_data returned None: the peer (or the network) closed the connection.
 DSeeEof ==
   /\ pcD = "recv" /\ fc.fl = <<>> /\ fc.st \in {"closedU", "eof"}
   /\ pcD' = "verdict"
   /\ UNCHANGED <<mode, size, local, cnt, sizeD, stD, rsnD, remQ, expTk, recvD, needD, stU, rsnU, pcU, tkt, offU,
-                 sentU, chDU, chUD, fc, stall, faults>>
+                 sentU, chDU, chUD, fc, stall, faults, heldUF>>
 
 \* 1128-1130: read error -> INCOMPLETE
 DSeeReset ==
   /\ pcD = "recv" /\ fc.fl = <<>> /\ fc.st = "reset"
   /\ stD' = "INCOMPLETE" /\ pcD' = "idle"
   /\ UNCHANGED <<mode, size, local, cnt, sizeD, rsnD, remQ, expTk, recvD, needD, stU, rsnU, pcU, tkt, offU, sentU,
-                 chDU, chUD, fc, stall, faults>>
+                 chDU, chUD, fc, stall, faults, heldUF>>
 
 \* no data for 180 s (the sender will not send any more): read timeout -> disconnect, INCOMPLETE
 SenderSilent == fc.st = "open" /\ fc.fl = <<>> /\ (pcU = "waiteof" \/ stall)
@@ -260,24 +264,24 @@ DDataTimeout ==
   /\ pcD' = "timedout"
   /\ fc' = [fc EXCEPT !.st = "closedD"]
   /\ UNCHANGED <<mode, size, local, cnt, sizeD, stD, rsnD, remQ, expTk, recvD, needD, stU, rsnU, pcU, tkt, offU, sentU,
-                 chDU, chUD, stall, faults>>
+                 chDU, chUD, stall, faults, heldUF>>
 
 \* ... and after the disconnect the download becomes INCOMPLETE (1128-1130)
 DTimedOut ==
   /\ pcD = "timedout"
   /\ stD' = "INCOMPLETE" /\ pcD' = "idle"
   /\ UNCHANGED <<mode, size, local, cnt, sizeD, rsnD, remQ, expTk, recvD, needD, stU, rsnU, pcU, tkt, offU, sentU,
-                 chDU, chUD, fc, stall, faults>>
+                 chDU, chUD, fc, stall, faults, heldUF>>
 
 \* 1139-1144: D closes the file connection (this is how it confirms reception) and announces the
 \* verdict: COMPLETE iff counter = announced size (model.py is_transfered), else FAILED "Cancelled".
 \* The code closes first; the property does not depend on the order, so both orders are behaviours.
 DClose ==
   /\ pcD \in {"verdict", "toclose"}
-  /\ fc' = IF fc.st = "open" THEN [fc EXCEPT !.st = "closedD", !.fl = <<>>] ELSE fc
+  /\ fc' = IF ~PeerGone THEN [fc EXCEPT !.st = "closedD", !.fl = <<>>] ELSE fc
   /\ pcD' = IF pcD = "verdict" THEN "closed" ELSE "idle"
   /\ UNCHANGED <<mode, size, local, cnt, sizeD, stD, rsnD, remQ, expTk, recvD, needD, stU, rsnU, pcU, tkt, offU,
-                 sentU, chDU, chUD, stall, faults>>
+                 sentU, chDU, chUD, stall, faults, heldUF>>
 
 DVerdict ==
   /\ pcD \in {"closed", "verdict"}
@@ -285,7 +289,7 @@ DVerdict ==
                     ELSE stD' = "FAILED" /\ rsnD' = TRUE
   /\ pcD' = IF pcD = "closed" THEN "idle" ELSE "toclose"
   /\ UNCHANGED <<mode, size, local, cnt, sizeD, remQ, expTk, recvD, needD, stU, rsnU, pcU, tkt, offU, sentU, chDU,
-                 chUD, fc, stall, faults>>
+                 chUD, fc, stall, faults, heldUF>>
 
 \* 1482-1497
 DRecvUpFailed ==
@@ -293,7 +297,7 @@ DRecvUpFailed ==
   /\ chUD' = Tail(chUD)
   /\ remQ' = FALSE
   /\ UNCHANGED <<mode, size, local, cnt, sizeD, stD, rsnD, pcD, expTk, recvD, needD, stU, rsnU, pcU, tkt, offU,
-                 sentU, chDU, fc, stall, faults>>
+                 sentU, chDU, fc, stall, faults, heldUF>>
 
 \* environment: the user re-queues a download that FAILED with a reason (TransferManager.queue),
 \* once the uploader has noticed the end of its attempt
@@ -302,7 +306,7 @@ UserRetry ==
   /\ stU \notin {"INITIALIZING", "UPLOADING"}
   /\ stD' = "QUEUED" /\ rsnD' = FALSE /\ remQ' = FALSE
   /\ UNCHANGED <<mode, size, local, cnt, sizeD, pcD, expTk, recvD, needD, stU, rsnU, pcU, tkt, offU, sentU, chDU,
-                 chUD, fc, stall, faults>>
+                 chUD, fc, stall, faults, heldUF>>
 
 ----------------------------------------------------------------------------
 \* Uploader
@@ -315,7 +319,7 @@ URecvQueue ==
        THEN stU' = "QUEUED" /\ rsnU' = FALSE
        ELSE UNCHANGED <<stU, rsnU>>
   /\ UNCHANGED <<mode, size, local, cnt, sizeD, stD, rsnD, remQ, pcD, expTk, recvD, needD, pcU, tkt, offU, sentU,
-                 chUD, fc, stall, faults>>
+                 chUD, fc, stall, faults, heldUF>>
 
 \* 853-905: INITIALIZING, new ticket, PeerTransferRequest(ticket, size)
 UInitialize ==
@@ -324,7 +328,7 @@ UInitialize ==
   /\ tkt' = (tkt + 1) % TkMod
   /\ chUD' = Append(chUD, [t |-> "request", k |-> (tkt + 1) % TkMod, sz |-> size])
   /\ UNCHANGED <<mode, size, local, cnt, sizeD, stD, rsnD, remQ, pcD, expTk, recvD, needD, rsnU, offU, sentU, chDU,
-                 fc, stall, faults>>
+                 fc, stall, faults, heldUF>>
 
 \* 907-924: the reply for the current ticket; a refusal fails the upload with the given reason.
 \* Replies nobody waits for are dropped.
@@ -336,7 +340,7 @@ URecvReply ==
                              ELSE pcU' = "idle" /\ stU' = "FAILED" /\ rsnU' = TRUE
        ELSE UNCHANGED <<pcU, stU, rsnU>>
   /\ UNCHANGED <<mode, size, local, cnt, sizeD, stD, rsnD, remQ, pcD, expTk, recvD, needD, tkt, offU, sentU, chUD,
-                 fc, stall, faults>>
+                 fc, stall, faults, heldUF>>
 
 \* 917-920: no reply within 30 s -> QUEUED.  Fires only when the reply can no longer come.
 ReplyStillPossible ==
@@ -347,7 +351,7 @@ UReplyTimeout ==
   /\ pcU = "waitreply" /\ ~ReplyStillPossible
   /\ stU' = "QUEUED" /\ pcU' = "idle"
   /\ UNCHANGED <<mode, size, local, cnt, sizeD, stD, rsnD, remQ, pcD, expTk, recvD, needD, rsnU, tkt, offU, sentU,
-                 chDU, chUD, fc, stall, faults>>
+                 chDU, chUD, fc, stall, faults, heldUF>>
 
 \* 926-944: open the file connection and write the ticket
 UOpenFileConn ==
@@ -355,7 +359,7 @@ UOpenFileConn ==
   /\ fc' = [st |-> "open", tk |-> tkt, off |-> -1, fl |-> <<>>]
   /\ pcU' = "waitoffset"
   /\ UNCHANGED <<mode, size, local, cnt, sizeD, stD, rsnD, remQ, pcD, expTk, recvD, needD, stU, rsnU, tkt, offU,
-                 sentU, chDU, chUD, stall, faults>>
+                 sentU, chDU, chUD, stall, faults, heldUF>>
 
 \* 946-957 + 1007-1008: the offset arrives -> counter := offset, UPLOADING
 URecvOffset ==
@@ -364,14 +368,14 @@ URecvOffset ==
   /\ fc' = [fc EXCEPT !.off = -1]
   /\ stU' = "UPLOADING" /\ pcU' = "send"
   /\ UNCHANGED <<mode, size, local, cnt, sizeD, stD, rsnD, remQ, pcD, expTk, recvD, needD, rsnU, tkt, chDU, chUD,
-                 stall, faults>>
+                 stall, faults, heldUF>>
 
 \* 949-952: the connection ended before the offset came -> QUEUED
 UOffsetFail ==
   /\ pcU = "waitoffset" /\ fc.off < 0 /\ fc.st \in {"reset", "eof", "closedD"}
   /\ stU' = "QUEUED" /\ pcU' = "idle"
   /\ UNCHANGED <<mode, size, local, cnt, sizeD, stD, rsnD, remQ, pcD, expTk, recvD, needD, rsnU, tkt, offU, sentU,
-                 chDU, chUD, fc, stall, faults>>
+                 chDU, chUD, fc, stall, faults, heldUF>>
 
 Remaining == size - offU - sentU
 
@@ -380,33 +384,34 @@ Remaining == size - offU - sentU
 \* written to a connection the other side has left are lost silently.
 USend(n) ==
   /\ pcU = "send" /\ ~stall /\ n >= 1 /\ n <= Chunk /\ n <= Remaining
-  /\ IF fc.st = "reset"
+  /\ IF fc.st \in {"reset", "ubroken"}
        THEN /\ stU' = "FAILED" /\ rsnU' = FALSE /\ pcU' = "idle"
             /\ chUD' = Append(chUD, [t |-> "upfailed"])
-            /\ UNCHANGED <<sentU, fc>>
+            /\ fc' = IF fc.st = "ubroken" THEN [fc EXCEPT !.st = "closedU"] ELSE fc   \* _send disconnects
+            /\ UNCHANGED sentU
        ELSE /\ sentU' = sentU + n
             /\ fc' = IF fc.st = "open"
                        THEN [fc EXCEPT !.fl = Cat(fc.fl, Range(offU + sentU + 1, offU + sentU + n))]
                        ELSE fc
             /\ UNCHANGED <<stU, rsnU, pcU, chUD>>
   /\ UNCHANGED <<mode, size, local, cnt, sizeD, stD, rsnD, remQ, pcD, expTk, recvD, needD, tkt, offU, chDU, stall,
-                 faults>>
+                 faults, heldUF>>
 
 \* end of file reached (at once when the offset is at or beyond the end)
 USendDone ==
   /\ pcU = "send" /\ ~stall /\ Remaining <= 0
   /\ pcU' = "waiteof"
   /\ UNCHANGED <<mode, size, local, cnt, sizeD, stD, rsnD, remQ, pcD, expTk, recvD, needD, stU, rsnU, tkt, offU,
-                 sentU, chDU, chUD, fc, stall, faults>>
+                 sentU, chDU, chUD, fc, stall, faults, heldUF>>
 
 \* 1063-1068: wait until the connection ends, then COMPLETE iff offset + sent = size, else FAILED
 UVerdict ==
-  /\ pcU = "waiteof" /\ fc.st # "open"
+  /\ pcU = "waiteof" /\ PeerGone
   /\ IF offU + sentU = size THEN stU' = "COMPLETE" /\ UNCHANGED rsnU
                             ELSE stU' = "FAILED" /\ rsnU' = FALSE
   /\ pcU' = "idle"
   /\ UNCHANGED <<mode, size, local, cnt, sizeD, stD, rsnD, remQ, pcD, expTk, recvD, needD, tkt, offU, sentU, chDU,
-                 chUD, fc, stall, faults>>
+                 chUD, fc, stall, faults, heldUF>>
 
 ----------------------------------------------------------------------------
 \* Faults (budgeted)
@@ -420,20 +425,47 @@ Cut(m, j, keepTk, keepOff) ==
             fl |-> Take(fc.fl, j)]
   /\ faults' = faults + 1
   /\ UNCHANGED <<mode, size, local, cnt, sizeD, stD, rsnD, remQ, pcD, expTk, recvD, needD, stU, rsnU, pcU, tkt, offU,
-                 sentU, chDU, chUD, stall>>
+                 sentU, chDU, chUD, stall, heldUF>>
 
 \* a PeerTransferRequest / PeerTransferReply is lost with its peer connection
 LoseRequest ==
   /\ faults < MaxFaults /\ chUD # <<>> /\ Head(chUD).t = "request"
   /\ chUD' = Tail(chUD) /\ faults' = faults + 1
   /\ UNCHANGED <<mode, size, local, cnt, sizeD, stD, rsnD, remQ, pcD, expTk, recvD, needD, stU, rsnU, pcU, tkt, offU,
-                 sentU, chDU, fc, stall>>
+                 sentU, chDU, fc, stall, heldUF>>
 
 LoseReply ==
   /\ faults < MaxFaults /\ chDU # <<>> /\ Head(chDU).t = "reply"
   /\ chDU' = Tail(chDU) /\ faults' = faults + 1
   /\ UNCHANGED <<mode, size, local, cnt, sizeD, stD, rsnD, remQ, pcD, expTk, recvD, needD, stU, rsnU, pcU, tkt, offU,
-                 sentU, chUD, fc, stall>>
+                 sentU, chUD, fc, stall, heldUF>>
+
+\* the uploader's end of the file connection breaks: its next write fails, what is in flight still
+\* reaches the downloader, followed by EOF
+BreakUSide ==
+  /\ faults < MaxFaults /\ fc.st = "open" /\ pcU = "send"
+  /\ fc' = [fc EXCEPT !.st = "ubroken"]
+  /\ faults' = faults + 1
+  /\ UNCHANGED <<mode, size, local, cnt, sizeD, stD, rsnD, remQ, pcD, expTk, recvD, needD, stU, rsnU, pcU, tkt, offU,
+                 sentU, chDU, chUD, stall, heldUF>>
+
+\* a PeerUploadFailed is held back in the network (it travels on another connection than the messages
+\* that follow it): a delivery order, not a fault - every such message can be overtaken ...
+HoldUpFailed ==
+  /\ \E i \in 1..Len(chUD) :
+        /\ chUD[i].t = "upfailed"
+        /\ chUD' = SubSeq(chUD, 1, i - 1) \o SubSeq(chUD, i + 1, Len(chUD))
+  /\ heldUF' = heldUF + 1
+  /\ UNCHANGED <<mode, size, local, cnt, sizeD, stD, rsnD, remQ, pcD, expTk, recvD, needD, stU, rsnU, pcU, tkt, offU,
+                 sentU, chDU, fc, stall, faults>>
+
+\* ... and delivered later, whatever the download is doing then (1482-1497: only the mark is cleared)
+ReleaseUpFailed ==
+  /\ heldUF > 0
+  /\ heldUF' = heldUF - 1
+  /\ remQ' = FALSE
+  /\ UNCHANGED <<mode, size, local, cnt, sizeD, stD, rsnD, pcD, expTk, recvD, needD, stU, rsnU, pcU, tkt, offU,
+                 sentU, chDU, chUD, fc, stall, faults>>
 
 \* scripted uploader (another implementation, possibly dishonest)
 \* announces failure of a queued upload before requesting (PeerUploadFailed while D is queued remotely)
@@ -443,7 +475,7 @@ ScrUFailEarly ==
   /\ chUD' = Append(chUD, [t |-> "upfailed"])
   /\ faults' = faults + 1
   /\ UNCHANGED <<mode, size, local, cnt, sizeD, stD, rsnD, remQ, pcD, expTk, recvD, needD, pcU, tkt, offU, sentU,
-                 chDU, fc, stall>>
+                 chDU, fc, stall, heldUF>>
 
 \* gives up after the reply (crash, other implementation): no file connection, no message; the
 \* downloader has to recover by its own 60 s timer
@@ -452,7 +484,7 @@ ScrUAbandon ==
   /\ stU' = "FAILED" /\ rsnU' = FALSE /\ pcU' = "idle"
   /\ faults' = faults + 1
   /\ UNCHANGED <<mode, size, local, cnt, sizeD, stD, rsnD, remQ, pcD, expTk, recvD, needD, tkt, offU, sentU, chDU,
-                 chUD, fc, stall>>
+                 chUD, fc, stall, heldUF>>
 
 \* sends n bytes beyond the announced size (lost if the downloader has already left)
 ScrUSendJunk(n) ==
@@ -462,7 +494,7 @@ ScrUSendJunk(n) ==
   /\ sentU' = sentU + n
   /\ faults' = faults + 1
   /\ UNCHANGED <<mode, size, local, cnt, sizeD, stD, rsnD, remQ, pcD, expTk, recvD, needD, stU, rsnU, pcU, tkt, offU,
-                 chDU, chUD, stall>>
+                 chDU, chUD, stall, heldUF>>
 
 \* closes the connection before everything was sent
 ScrUCloseEarly ==
@@ -471,20 +503,20 @@ ScrUCloseEarly ==
   /\ stU' = "FAILED" /\ rsnU' = FALSE /\ pcU' = "idle"
   /\ faults' = faults + 1
   /\ UNCHANGED <<mode, size, local, cnt, sizeD, stD, rsnD, remQ, pcD, expTk, recvD, needD, tkt, offU, sentU, chDU,
-                 chUD, stall>>
+                 chUD, stall, heldUF>>
 
 \* stops sending and keeps the connection open until D gives up
 ScrUStall ==
   /\ mode = "scrU" /\ faults < MaxFaults /\ pcU = "send" /\ Remaining > 0 /\ fc.st = "open" /\ ~stall
   /\ stall' = TRUE /\ faults' = faults + 1
   /\ UNCHANGED <<mode, size, local, cnt, sizeD, stD, rsnD, remQ, pcD, expTk, recvD, needD, stU, rsnU, pcU, tkt, offU,
-                 sentU, chDU, chUD, fc>>
+                 sentU, chDU, chUD, fc, heldUF>>
 
 ScrUStallEnd ==
   /\ stall /\ fc.st # "open"
   /\ stall' = FALSE /\ stU' = "FAILED" /\ rsnU' = FALSE /\ pcU' = "idle"
   /\ UNCHANGED <<mode, size, local, cnt, sizeD, stD, rsnD, remQ, pcD, expTk, recvD, needD, tkt, offU, sentU, chDU,
-                 chUD, fc, faults>>
+                 chUD, fc, faults, heldUF>>
 
 \* scripted downloader closes before it has everything
 ScrDCloseEarly ==
@@ -493,7 +525,7 @@ ScrDCloseEarly ==
   /\ stD' = "INCOMPLETE" /\ pcD' = "idle"
   /\ faults' = faults + 1
   /\ UNCHANGED <<mode, size, local, cnt, sizeD, rsnD, remQ, expTk, recvD, needD, stU, rsnU, pcU, tkt, offU, sentU,
-                 chDU, chUD, stall>>
+                 chDU, chUD, stall, heldUF>>
 
 Offsets == IF RealD THEN {LocalLen} ELSE 0..(size + 1)
 
@@ -511,10 +543,10 @@ Fault ==
   \/ \E m \in {"reset", "eof"}, j \in 0..(MaxSize + Chunk), kt \in BOOLEAN, ko \in BOOLEAN :
         /\ (fc.tk < 0 => kt) /\ (fc.off < 0 => ko)
         /\ Cut(m, j, kt, ko)
-  \/ LoseRequest \/ LoseReply
+  \/ LoseRequest \/ LoseReply \/ BreakUSide \/ HoldUpFailed
   \/ ScrUFailEarly \/ ScrUAbandon \/ (\E n \in 1..Chunk : ScrUSendJunk(n)) \/ ScrUCloseEarly \/ ScrUStall \/ ScrDCloseEarly
 
-Next == DStep \/ UStep \/ UserRetry \/ Fault
+Next == DStep \/ UStep \/ UserRetry \/ ReleaseUpFailed \/ Fault
 
 Spec == Init /\ [][Next]_vars
 
@@ -528,6 +560,7 @@ FairSpec ==
   /\ WF_vars(URecvQueue) /\ WF_vars(UInitialize) /\ WF_vars(URecvReply) /\ WF_vars(UReplyTimeout)
   /\ WF_vars(UOpenFileConn) /\ WF_vars(URecvOffset) /\ WF_vars(UOffsetFail)
   /\ WF_vars(\E n \in 1..Chunk : USend(n)) /\ WF_vars(USendDone) /\ WF_vars(UVerdict)
+  /\ WF_vars(ReleaseUpFailed)
 
 ----------------------------------------------------------------------------
 \* Properties
@@ -538,7 +571,7 @@ TypeOK ==
   /\ stD \in States /\ stU \in States \cup {"NONE"}
   /\ pcD \in {"idle", "waitfc", "offerr", "starting", "recv", "timedout", "verdict", "closed", "toclose", "stuck"}
   /\ pcU \in {"idle", "waitreply", "connect", "waitoffset", "send", "waiteof"}
-  /\ fc.st \in {"none", "open", "closedD", "closedU", "eof", "reset"}
+  /\ fc.st \in {"none", "open", "ubroken", "closedD", "closedU", "eof", "reset"}
   /\ faults \in 0..MaxFaults
 
 \* A download is COMPLETE only if the local file is the source file.
@@ -548,7 +581,7 @@ DCompleteIsIdentical == (RealD /\ stD = "COMPLETE") => IsSrc(local)
 \* connection has ended (the peer closed it).
 UCompleteSentAll ==
   [][(stU # "COMPLETE" /\ stU' = "COMPLETE") =>
-        (offU <= size /\ sentU = size - offU /\ fc.st # "open")]_vars
+        (offU <= size /\ sentU = size - offU /\ PeerGone)]_vars
 
 \* The offset a real downloader sends is the size of its local file.
 ResumeAtLocalSize ==
@@ -570,6 +603,7 @@ Settled ==
   /\ stD = "COMPLETE"
   /\ stU = "COMPLETE" \/ (stU = "FAILED" /\ rsnU)
   /\ pcD = "idle" /\ pcU = "idle"
+  /\ heldUF = 0
 
 \* Once faults stop the pair finishes (real parties; a scripted party is not obliged to).
 Finishes == (mode = "real2") => <>[]Settled
